@@ -395,3 +395,27 @@ def first_difference(a, b, path=''):
                 return d
         return None
     return None if a == b else f'{path}: {a!r} != {b!r}'
+
+
+def extension_small(p, lid, ver='1', base=('B', '1'), tag='x', btag=''):
+    """A small extension of lexicon_small(tag=btag): a new entry whose sense attaches to a
+    base synset, a tag on the base lemma, a relation and an example on external entities."""
+    t, b = tag, btag
+    return {'id': lid, 'version': ver, 'label': p(t + 'label', lid + ' label'), 'language': 'en',
+            'email': 'e', 'license': 'l', 'meta': None,
+            'extends': {'id': base[0], 'version': base[1]},
+            'entries': [
+                {'external': True, 'id': b + 'e1',
+                 'lemma': {'external': True, 'tags': [{'text': p(t + 'tag', t + 'tag'),
+                                                       'category': 'c'}]},
+                 'senses': [{'external': True, 'id': b + 's1',
+                             'examples': [{'text': p(t + 'sx', t + 'sx'), 'meta': None}]}]},
+                {'id': t + 'e1', 'meta': None,
+                 'lemma': {'writtenForm': p(t + 'w1', t + 'w1'), 'partOfSpeech': 'n'},
+                 'senses': [{'id': t + 's1', 'synset': b + 'ss1', 'meta': None}]}],
+            'synsets': [
+                {'external': True, 'id': b + 'ss1'},
+                {'external': True, 'id': b + 'ss2',
+                 'relations': [{'target': t + 'ss1', 'relType': 'hyponym', 'meta': None}]},
+                {'id': t + 'ss1', 'ili': '', 'partOfSpeech': 'n', 'meta': None,
+                 'relations': [{'target': b + 'ss2', 'relType': 'hypernym', 'meta': None}]}]}
